@@ -23,6 +23,11 @@ fn make_stream(rng: &mut Rng, pair: u8, l: usize, trailer: usize) -> Vec<u8> {
     let mut s = V2_SIG.to_vec();
     s.push(0x20 | cmd);
     s.push((fam << 4) | proto);
+    if pair >= 24 {
+        // pair values 24.. stand for arbitrary control bytes
+        s[12] = rng.byte();
+        s[13] = rng.byte();
+    }
     s.extend_from_slice(&(l as u16).to_be_bytes());
     // "whatever their values": the payload is seeded noise, sometimes carrying bytes that
     // mean something elsewhere in the protocol
@@ -73,7 +78,7 @@ impl Check for C17 {
             // property does not judge; an incomplete answer would have to be exact and honoured
             l = want;
         } else {
-            pair = rng.below(24) as u8;
+            pair = if rng.chance(1, 10) { 24 } else { rng.below(24) as u8 };
             let fam = ((pair / 2) % 4) as usize;
             let min = if rng.chance(1, 8) { 0 } else { FAMILY_SIZE[fam] };
             l = match rng.below(10) {
